@@ -8,10 +8,13 @@ import (
 	"context"
 	"encoding/json"
 	"fmt"
+	"io"
+	"log"
 	"math"
 	"os"
 	"reflect"
 	"time"
+	"unicode/utf8"
 
 	"google.golang.org/protobuf/proto"
 	"google.golang.org/protobuf/reflect/protoreflect"
@@ -158,6 +161,58 @@ func hasComposite(v octosql.Value) bool {
 	return v.TypeID == octosql.TypeIDList || v.TypeID == octosql.TypeIDStruct || v.TypeID == octosql.TypeIDTuple
 }
 
+const classNotUTF8 = "string-not-utf8-refused-by-proto3"
+
+func allUTF8(vs []octosql.Value) bool {
+	for _, v := range vs {
+		switch v.TypeID {
+		case octosql.TypeIDString:
+			if !utf8.ValidString(v.Str) {
+				return false
+			}
+		case octosql.TypeIDList:
+			if !allUTF8(v.List) {
+				return false
+			}
+		case octosql.TypeIDStruct:
+			if !allUTF8(v.Struct) {
+				return false
+			}
+		case octosql.TypeIDTuple:
+			if !allUTF8(v.Tuple) {
+				return false
+			}
+		}
+	}
+	return true
+}
+
+func typeNamesUTF8(t octosql.Type) bool {
+	switch t.TypeID {
+	case octosql.TypeIDList:
+		return t.List.Element == nil || typeNamesUTF8(*t.List.Element)
+	case octosql.TypeIDStruct:
+		for _, f := range t.Struct.Fields {
+			if !utf8.ValidString(f.Name) || !typeNamesUTF8(f.Type) {
+				return false
+			}
+		}
+	case octosql.TypeIDTuple:
+		for _, e := range t.Tuple.Elements {
+			if !typeNamesUTF8(e) {
+				return false
+			}
+		}
+	case octosql.TypeIDUnion:
+		for _, e := range t.Union.Alternatives {
+			if !typeNamesUTF8(e) {
+				return false
+			}
+		}
+	}
+	return true
+}
+
 // ---------------------------------------------------------------------------------------------- round trips
 
 func caught(f func()) (p interface{}) {
@@ -180,8 +235,11 @@ func roundTrips(cf *lib.CaseFile, rng *lib.Rng, n int) {
 			} else {
 				cf.Count("value_refused_by_proto_marshal")
 			}
-			cf.Add(fmt.Sprintf("KValue %s %s %s %s %s", lib.CoqValue(v), coqPValue(m.ProtoReflect()), lib.CoqValue(back), wok, wback),
+			idx := cf.Add(fmt.Sprintf("KValue %s %s %s %s %s", lib.CoqValue(v), coqPValue(m.ProtoReflect()), lib.CoqValue(back), wok, wback),
 				map[string]interface{}{"kind": "value", "value": lib.ValueJSON(v), "back": lib.ValueJSON(back), "proto_marshal_ok": wok}, hasComposite(v))
+			if !allUTF8([]octosql.Value{v}) {
+				cf.SetClass(idx, classNotUTF8)
+			}
 			cf.Count("value_" + v.TypeID.String())
 		case 2: // types
 			t := genType(r, 3, true)
@@ -193,8 +251,11 @@ func roundTrips(cf *lib.CaseFile, rng *lib.Rng, n int) {
 			} else {
 				cf.Count("type_refused_by_proto_marshal")
 			}
-			cf.Add(fmt.Sprintf("KType %s %s %s %s %s", coqType(t), coqPType(m.ProtoReflect()), coqType(back), wok, wback),
+			idx := cf.Add(fmt.Sprintf("KType %s %s %s %s %s", coqType(t), coqPType(m.ProtoReflect()), coqType(back), wok, wback),
 				map[string]interface{}{"kind": "type", "type": coqType(t), "back": coqType(back), "proto_marshal_ok": wok}, t.TypeID >= octosql.TypeIDList && t.TypeID != octosql.TypeIDAny)
+			if !typeNamesUTF8(t) {
+				cf.SetClass(idx, classNotUTF8)
+			}
 			cf.Count("type_" + t.TypeID.String())
 		case 3: // schemas (through the byte encoding as well: field names are valid UTF-8 here)
 			fs := genFields(r, false)
@@ -222,7 +283,10 @@ func roundTrips(cf *lib.CaseFile, rng *lib.Rng, n int) {
 			idx := cf.Add(fmt.Sprintf("KRecord %s %s %s", coqRecord(rec), coqPRecord(m.ProtoReflect()), coqRecord(back)),
 				map[string]interface{}{"kind": "record", "values": lib.ValuesJSON(rec.Values), "retraction": rec.Retraction, "event_time": lib.Ns(rec.EventTime),
 					"back_values": lib.ValuesJSON(back.Values), "back_event_time": lib.Ns(back.EventTime)}, len(rec.Values) > 0)
-			if bad {
+			if bad && !allUTF8(rec.Values) {
+				cf.Violation(idx, "proto.Marshal refuses the record: it holds a string that is not valid UTF-8", classNotUTF8)
+				cf.Count("record_refused_by_proto_marshal")
+			} else if bad {
 				cf.Violation(idx, "record differs after proto.Marshal/Unmarshal", "")
 			}
 			if rec.EventTime.IsZero() {
@@ -278,7 +342,14 @@ func roundTrips(cf *lib.CaseFile, rng *lib.Rng, n int) {
 			}
 			idx := cf.Add(fmt.Sprintf("KEctx %s %s %s", coqEctx(c), coqPEctx(m.ProtoReflect()), coqEctx(back)),
 				map[string]interface{}{"kind": "execution_context", "context": coqEctx(c), "back": coqEctx(back)}, frames > 1)
-			if bad {
+			utf8ok := true
+			for fr := c; fr != nil; fr = fr.Parent {
+				utf8ok = utf8ok && allUTF8(fr.Values)
+			}
+			if bad && !utf8ok {
+				cf.Violation(idx, "proto.Marshal refuses the execution variable context: it holds a string that is not valid UTF-8", classNotUTF8)
+				cf.Count("ectx_refused_by_proto_marshal")
+			} else if bad {
 				cf.Violation(idx, "execution variable context differs after proto.Marshal/Unmarshal", "")
 			}
 			cf.Count(fmt.Sprintf("ectx_frames_%d", frames))
@@ -443,6 +514,29 @@ func constExpr(t octosql.Type, v octosql.Value) physical.Expression {
 	return physical.Expression{Type: t, ExpressionType: physical.ExpressionTypeConstant, Constant: &physical.Constant{Value: v}}
 }
 
+// valueKey renders a value without the identity of time locations (encoding/json rebuilds a zone from its offset,
+// so the *time.Location pointer is never the same; the instant and the offset are what a function can observe).
+func valueKey(v octosql.Value) string {
+	switch v.TypeID {
+	case octosql.TypeIDTime:
+		_, off := v.Time.Zone()
+		return fmt.Sprintf("(time %s offset %d)", lib.Ns(v.Time), off)
+	case octosql.TypeIDList, octosql.TypeIDStruct, octosql.TypeIDTuple:
+		vs := v.List
+		if v.TypeID == octosql.TypeIDStruct {
+			vs = v.Struct
+		} else if v.TypeID == octosql.TypeIDTuple {
+			vs = v.Tuple
+		}
+		out := fmt.Sprintf("(%d", v.TypeID)
+		for i := range vs {
+			out += " " + valueKey(vs[i])
+		}
+		return out + ")"
+	}
+	return lib.CoqValue(v)
+}
+
 type evalResult struct {
 	Val   string
 	Err   bool
@@ -463,7 +557,7 @@ func evalExpr(e physical.Expression) (res evalResult) {
 	if err != nil {
 		return evalResult{Err: true}
 	}
-	return evalResult{Val: lib.CoqValue(v)}
+	return evalResult{Val: valueKey(v)}
 }
 
 // functions whose result depends on the clock / a random source, or that stop the process: resolved, not evaluated
@@ -729,7 +823,7 @@ func (ce *callEngine) callCases(cf *lib.CaseFile, rng *lib.Rng, perDescriptor in
 					for i := range args {
 						if args[i].ExpressionType == physical.ExpressionTypeConstant &&
 							(i >= len(node.FunctionCall.Arguments) || node.FunctionCall.Arguments[i].Constant == nil ||
-								lib.CoqValue(node.FunctionCall.Arguments[i].Constant.Value) != lib.CoqValue(args[i].Constant.Value)) {
+								valueKey(node.FunctionCall.Arguments[i].Constant.Value) != valueKey(args[i].Constant.Value)) {
 							same = false
 							js["constant_changed"] = i
 						}
@@ -830,6 +924,7 @@ func (ce *callEngine) unknownCases(cf *lib.CaseFile, rng *lib.Rng, n int) {
 
 func main() {
 	f := lib.ParseFlags()
+	log.SetOutput(io.Discard)          // RepopulatePhysicalExpressionFunctions logs every rejection
 	lib.LocID(time.Unix(0, 0).UTC()) // location 0 = UTC = the model's loc_utc
 	switch f.Cmd {
 	case "gen":
